@@ -137,3 +137,56 @@ def block_comment_exact(c, facts, rule, bound=8):
         c.bad(R, 'block-comment-pattern-too-wide', 'the block-comment token matches %r, which is more than one comment: code after the first `*/` is swallowed' % over, **inst)
     else:
         c.ok(R, inst)
+
+
+# the identifier alphabets of the pinned language (frozen; one line of reason each).  The rule is one-sided: a token that
+# matches *more* is a language extension; one that matches less rejects programs that were accepted - and "rename to a
+# fresh name" is a rewrite C05 quantifies over, so every name of the old alphabet must stay a name.
+IDENT_REFERENCE = {
+    'IdentifierValue': (r'[a-zA-Z_][0-9a-zA-Z$_-]*', 'variables, functions, parameters, qualifiers'),
+    'IdentifierReference': (r'@[0-9a-zA-Z$_-]+', '@references'),
+    'Property': (r"'[0-9a-zA-Z$@_-]+", 'property names'),
+}
+
+
+def ident_alphabet(c, facts, rule, bound=3):
+    R = c.rule(rule, 'IDENT-LEXEME: every name of the identifier alphabets still lexes as that kind of identifier (all strings up to length %d over a sample alphabet)' % bound)
+    pats, subs = token_patterns(facts)
+    sample = "aZ0_$-@'"
+    n = 0
+    for kind, (ref, what) in sorted(IDENT_REFERENCE.items()):
+        ps = pats.get(kind)
+        if not ps:
+            c.bad(R, 'token-pattern-missing:' + kind, 'the pattern of TokenKind::%s cannot be read from the source of the enum' % kind)
+            continue
+        lost = None
+        for L in range(1, bound + 1):
+            for tup in itertools.product(sample, repeat=L):
+                s = ''.join(tup)
+                n += 1
+                if re.fullmatch(ref, s) and not any(matches(k, p, subs, s) for k, p in ps) and lost is None:
+                    lost = s
+        inst = {'token': kind, 'patterns': [p for _, p in ps], 'reference': ref}
+        if lost is not None:
+            c.bad(R, 'identifier-alphabet-narrowed:' + kind, 'TokenKind::%s no longer matches %r (%s): a program using such a name, or renamed to one, is rejected' % (kind, lost, what), **inst)
+        else:
+            c.ok(R, inst)
+    c.floor(R, 'strings examined', n, 1000)
+
+
+def no_skip(c, facts, rule):
+    """logos discards what a `skip` pattern matches: the bytes become neither a token nor a lexical error, so the tokens no
+    longer tile the text (trivia are tokens of their own in this lexer: Space, CommentLine, CommentBlock)"""
+    R = c.rule(rule, 'NO-SKIP: the lexer discards nothing - no logos `skip` pattern or callback on the token enum')
+    adt = facts.adt('oal_syntax::lexer::TokenKind')
+    src = (adt or {}).get('src') or ''
+    if not src or '#[regex' not in src:
+        c.bad(R, 'token-pattern-missing:TokenKind', 'the source of the token enum cannot be read')
+        return
+    attrs = re.findall(r'#\[(?:logos|regex|token)\((?:[^\[\]]|\[[^\]]*\])*?\)\]', src, re.S)
+    c.floor(R, 'token attributes examined', len(attrs), 40)
+    bad = [a for a in attrs if re.search(r'\bskip\b', re.sub(r'r#*".*?"#*|"(?:[^"\\]|\\.)*"', '""', a, flags=re.S))]
+    if bad:
+        c.bad(R, 'lexer-skips-input', 'the token enum carries a logos skip: %s - the matched bytes are dropped without a token or an error, so tokens and errors no longer tile the text' % bad[0][:80], attributes=len(attrs))
+    else:
+        c.ok(R, {'attributes': len(attrs), 'skip': 'none'})
